@@ -21,6 +21,8 @@ type chainRoles struct {
 	tipState, store, txpool, onReorg, onPool, mu *types.Var
 	methods                                      []*ir.Func
 	vs                                           *ir.ViewSet // chain's functions with helpers expanded, role functions kept as calls
+	methodsV                                     []*ir.Func  // views of the Manager methods that are not absorbed by their callers
+	stop                                         func(*types.Func) bool
 }
 
 func getChainRoles(p *ir.Prog) *chainRoles {
@@ -69,8 +71,30 @@ func getChainRoles(p *ir.Prog) *chainRoles {
 	if r.reorgTo == nil {
 		ir.Fail("Manager method walking the tip (calls both the apply and the revert step) not found")
 	}
+	// functions the rules treat as units stay calls in every view: the three tip steps and, where they can be
+	// resolved, the rebasing method, the reorg-path method, the proof updater and the pool revalidation step
 	roles := map[*types.Func]bool{r.applyTip.Obj: true, r.revertTip.Obj: true, r.reorgTo.Obj: true}
+	cx := &Ctx{P: p}
+	for _, find := range []func() *ir.Func{
+		func() *ir.Func { return rebaseFn(cx) },
+		func() *ir.Func { return reorgPathFn(cx) },
+		func() *ir.Func { return proofUpdaterFn(cx) },
+		func() *ir.Func { return revalidateFn(cx, getPoolFields(p)) },
+	} {
+		func() {
+			defer func() { _ = recover() }() // a role that does not resolve is reported by the rule that needs it
+			if f := find(); f != nil && f.Obj != nil {
+				roles[f.Obj] = true
+			}
+		}()
+	}
 	r.vs = p.Views("chain", ir.ExpandOpt{Key: "chain-roles", Stop: func(fn *types.Func) bool { return roles[fn] }})
+	r.stop = func(fn *types.Func) bool { return roles[fn] }
+	for _, f := range r.methods {
+		if v := r.vs.Of(f); !r.vs.Absorbed[f] {
+			r.methodsV = append(r.methodsV, v)
+		}
+	}
 	return r
 }
 
@@ -110,4 +134,16 @@ func (r *chainRoles) heavierEdges(f *ir.Func) (edges []*cfgx.Edge, subjects []ty
 // isIndexOf reports whether e is `obj.Index`.
 func isIndexOf(f *ir.Func, e ast.Expr, obj types.Object) bool {
 	return isFieldOfObj(f, e, obj, "Index")
+}
+
+// methodsWithDefers: like methodsV, with deferred calls made explicit before every return.
+func (r *chainRoles) methodsWithDefers() []*ir.Func {
+	vs := r.p.Views("chain", ir.ExpandOpt{Key: "chain-roles+defers", Stop: r.stop, Defers: true})
+	var out []*ir.Func
+	for _, f := range r.methods {
+		if !vs.Absorbed[f] {
+			out = append(out, vs.Of(f))
+		}
+	}
+	return out
 }
